@@ -42,7 +42,7 @@ TECHNIQUE = "history monitor: recorded read/construct histories on shared argume
 DESIGN_REF = "DESIGN.md 4 C18; 2.4(d)(e)"
 REQUIRED_REACH = {
     "quick": ["history_read", "reread", "construct_shared", "envelope_equivalence", "thread_read",
-              "contract_dimension_dict_prepared",
+              "contract_dimension_dict_prepared", "memo_slot_named_after_its_property",
               "class:mutated_response", "class:set_and_single_cubes",
               "class:same_transforms_other_survey", "class:mode=cube",
               "class:mode=cubeset_tabbook", "class:mode=cubeset_ca0",
@@ -50,7 +50,8 @@ REQUIRED_REACH = {
               "class:means_pairwise_defined",
               "class:corpus"],
     "thorough": ["history_read", "reread", "construct_shared", "envelope_equivalence",
-                 "thread_read", "contract_dimension_dict_prepared", "class:mutated_response",
+                 "thread_read", "contract_dimension_dict_prepared",
+                 "memo_slot_named_after_its_property", "class:mutated_response",
                  "class:set_and_single_cubes",
                  "class:means_pairwise_defined", "class:corpus"],
 }
@@ -233,6 +234,12 @@ def make_case(unit):
         if "numarr" not in template and "mean" not in spec.measures:
             spec.numvar = None
         _array_transforms(g, spec, tr)
+        if len(facets) >= 2 and gen.stratum(ID, i, "alpha", 2):
+            # two thresholds: every secondary-threshold measure is defined and has to keep its
+            # own value whichever of its siblings was read first
+            tr["pairwise_indices"] = {
+                "alpha": [[0.05, 0.4], [0.01, 0.2], [0.3, 0.05]][gen.stratum(ID, i, "a2", 3)],
+                "only_larger": bool(gen.stratum(ID, i, "ol", 2))}
         return {"mode": mode, "template": template, "specs": [sim.spec_to_dict(spec)],
                 "transforms_list": [tr], "population": 1000, "threads": unit["threads"],
                 "hseed": "h/%s/%s" % (unit["seed"], i)}
@@ -404,6 +411,15 @@ def _read_entry(case, obj, parts, entry):
     return read(target, name, *args)
 
 
+def _is_lazy(cls, name):
+    from cr.cube.util import lazyproperty
+
+    for k in cls.__mro__:
+        if name in vars(k):
+            return isinstance(vars(k)[name], lazyproperty)
+    return False
+
+
 def check_case(case):
     res = CaseResult()
     _contract["violations"] = []
@@ -504,8 +520,18 @@ def _check_case(case, res):
             res.check("history_read", False, "history/partition_count",
                       {"got": len(parts), "wanted": e[0], "history": history[-12:]})
             continue
+        target = ob if e[0] < 0 else parts[e[0]]
+        slots_before = set(vars(target)) if hasattr(target, "__dict__") else set()
         got = _outcome(_read_entry(case, ob, parts, e))
         history.append(["read", k, e[0], e[1], list(e[2]), kind(e)])
+        # invariant at a hook: a value memoised on the object by this read sits in a slot
+        # named after a lazy property of its class (a slot under any other name is shared
+        # by whatever else writes there)
+        foreign = [nm for nm in set(vars(target)) - slots_before
+                   if not _is_lazy(type(target), nm)] if hasattr(target, "__dict__") else []
+        res.check("memo_slot_named_after_its_property", not foreign,
+                  "history/foreign_memo_slot/%s" % e[1],
+                  None if not foreign else {"slots": sorted(foreign), "read": e[1]})
         if e[1].startswith("pairwise_") and "means" in e[1] and pristine[e][0] == "ok":
             res.classes.append("means_pairwise_defined")
         n_reads += 1
